@@ -83,6 +83,12 @@ FloatReprOK(t, f) ==
      /\ IsFinite(f)
      /\ IsNearestDec(f, neg, lit.digits, lit.e10)
 
+\* the cheap part: [-] float literal with the sign of f
+FloatSyntaxOK(t, f) ==
+  LET neg  == t # <<>> /\ t[1] = 45
+      lit  == U!NumLit(IF neg THEN Tail(t) ELSE t)
+  IN lit.ok /\ lit.kind = "float" /\ IsFinite(f) /\ (f.s = 1) = neg
+
 IntReprOK(t, x) == t = IntText(x)
 
 (***************************************************************************)
